@@ -229,6 +229,10 @@ class TaskControl(object):
                     continue
                 if task.name.startswith('_regex_target'):
                     continue
+                # placeholder of a sub-task selected by name: it shares the
+                # loader of its creator's task, which is matched on its own
+                if task.loader.basename not in (None, task.name):
+                    continue
                 if task.loader.target_regex:
                     if re.match(task.loader.target_regex, filter_):
                         delayed_matched.append(task)
